@@ -104,6 +104,12 @@ class Gen(object):
             self.list_rules(r, depth, validation_only=validation_only)
             if 'schema' not in r and 'items' not in r and self.chance(0.3):
                 r['type'] = ['list', 'string']
+            elif 'items' in r and self.chance(0.3):
+                # `items` without a type that excludes strings
+                if self.chance(0.5):
+                    r['type'] = ['list', 'string']
+                else:
+                    del r['type']
         elif kind == 'dict':
             r['type'] = 'dict'
             self.dict_rules(r, depth, siblings, validation_only=validation_only)
@@ -211,6 +217,8 @@ class Gen(object):
         x = self.r.random()
         if depth > 0 and x < 0.55:
             names = self.some(SUBKEYS[:6], 1, 3)
+            if self.chance(0.12):
+                names.append('^a')          # a field whose name starts with a caret (what the `^^a` dependency path refers to)
             r['schema'] = {f: self.rules(depth - 1, siblings=names, validation_only=validation_only) for f in names}
             if self.chance(0.3):
                 r['allow_unknown'] = self.allow_unknown(depth - 1, validation_only)
@@ -444,6 +452,10 @@ class Gen(object):
             return None
         if self.chance(self.p_wrong):
             return self.anyval(2)
+        if isinstance(rules.get('items'), list) and self.chance(0.12) and \
+                (rules.get('type') is None or (isinstance(rules.get('type'), (list, tuple)) and 'string' in rules['type'])):
+            # `items` judges any sized iterable: a string of as many (or other) characters as there are item rules
+            return ''.join(self.pick(['a', 'b', '1', 'x']) for _ in range(len(rules['items']) if self.chance(0.7) else self.r.randint(0, 3)))
         t = rules.get('type')
         if isinstance(t, (list, tuple)):
             t = self.pick(list(t)) if t else None
